@@ -35,6 +35,8 @@ FAMILIES = ("generic", "orthogonal", "dependent", "two", "gu", "mixed")
 
 
 def _nt(case):
+    if case.get("real_first"):
+        return "mixed-dtype-ensemble"
     if case["family"] == "mixed":
         return "mixed"
     if case["family"] == "dependent":
@@ -59,7 +61,10 @@ def _interval(dms, p):
 def _call(vectors, probs, **kw):
     from toqito.state_opt import state_distinguishability
 
+    before = [np.array(v, copy=True) for v in vectors]
+    pb = None if probs is None else list(probs)
     val, meas = state_distinguishability(vectors=vectors, probs=probs, **kw)
+    req(all(a.shape == b.shape and np.array_equal(a, b) for a, b in zip(before, vectors)) and (probs is None or list(probs) == pb), "state_distinguishability modified the caller's states or priors", "args-mutated")
     if val is None or not np.isfinite(val):
         raise Inconclusive("solver_no_value")
     return float(np.real(val)), meas
